@@ -104,7 +104,7 @@ func runPlan(t *testing.T, sc *Scenario, plan *Plan, ch *simrt.Choices) (res Res
 			if os.Getenv("VERIF_TRACE") != "" {
 				opt.TraceCap = 1 << 22
 			}
-			run = simrt.Execute(opt, func() { sc.Main(w) })
+			run = simrt.Execute(opt, func() { sc.Main(w); w.mainReturned = true })
 		})
 	}()
 	res.WallUS = time.Since(start).Microseconds()
@@ -131,7 +131,10 @@ func runPlan(t *testing.T, sc *Scenario, plan *Plan, ch *simrt.Choices) (res Res
 	// A run in which a library goroutine panicked is a crashed process: only
 	// the crash oracle (C08) judges it; a run that hit the step budget is
 	// neither a pass nor a violation.
-	if !res.Budget && (len(run.Panics) == 0 || sc.JudgesPanics) {
+	if w.Wedged != "" && len(run.Panics) == 0 {
+		// closing things down never finished: the scenario's oracles would only see consequences
+		w.Violate(sc.Property+".wedged", "teardown-wedged", "five simulated minutes after the harness began to close connections, pools, clients and servers its main goroutine was still inside a library call:\n"+clipStack(w.Wedged))
+	} else if !res.Budget && (len(run.Panics) == 0 || sc.JudgesPanics) {
 		sc.Check(w, run)
 	} else if !res.Budget {
 		// the process would have crashed: the scenario's own oracles are not evaluated (their
